@@ -273,6 +273,42 @@ func c05Judge(w *mon.W, c c05Case) {
 				break
 			}
 		}
+		// one long run (not stored): the far tails and the fourth moment. A
+		// sampler that is only approximately normal (a sum of uniforms, a
+		// truncated or table-limited method) passes a KS band over 50000
+		// draws; it does not have the normal law's mass beyond four standard
+		// deviations, nor its kurtosis. Both statistics are judged with bands
+		// of 8 standard deviations of the estimator (false-alarm rate below
+		// 1e-12 for any correct sampler).
+		{
+			const M = 2000000
+			r := rand.New(rand.NewSource(int64(c.Seed) ^ 0x5eed))
+			var s2, s4 float64
+			beyond4 := 0
+			w.EvalN("NormalDist.Rand(long run)", M)
+			for i := 0; i < M; i++ {
+				z := (n.Rand(r) - mu) / sigma
+				z2 := z * z
+				s2 += z2
+				s4 += z2 * z2
+				if z2 > 16 {
+					beyond4++
+				}
+			}
+			w.Hit("rand-long-run-tails-and-kurtosis")
+			const p4 = 6.334248366623984e-05 // P(|Z| > 4)
+			m4, sd4 := M*p4, math.Sqrt(M*p4*(1-p4))
+			if !w.Err("rand-tail-4-sigma", math.Abs(float64(beyond4)-m4), 8*sd4+1) {
+				w.Violate("rand-tails", fmt.Sprintf("NormalDist{%g,%g}.Rand: %d of %d draws lie beyond 4 sigma, expected %.0f +- %.0f", mu, sigma, beyond4, M, m4, sd4), c)
+			}
+			kurt := (s4/M)/((s2/M)*(s2/M)) - 3
+			if !w.Err("rand-excess-kurtosis", math.Abs(kurt), 8*math.Sqrt(24.0/M)) {
+				w.Violate("rand-kurtosis", fmt.Sprintf("NormalDist{%g,%g}.Rand: excess kurtosis %.4f over %d draws (a normal sample has 0 +- %.4f)", mu, sigma, kurt, M, math.Sqrt(24.0/M)), c)
+			}
+			if v := s2 / M; !w.Err("rand-variance", math.Abs(v-1), 8*math.Sqrt(2.0/M)) {
+				w.Violate("rand-variance", fmt.Sprintf("NormalDist{%g,%g}.Rand: variance of the standardised draws %.5f over %d draws (expected 1 +- %.5f)", mu, sigma, v, M, math.Sqrt(2.0/M)), c)
+			}
+		}
 		// hostile sources: every variate they can produce is a legal output of
 		// a rand.Source, so the draw must be finite (an event of probability
 		// zero such as -Inf must never come out)
@@ -511,7 +547,7 @@ func c05Laws(w *mon.W, c c05Case, d c05dist, centre, scale float64, name string)
 func c05Run(r *mon.Run) {
 	r.Rule("NormalDist: Mu in +-1e6, Sigma in [1e-6,1e6]; TDist: V log-uniform in [0.1,1e4] and integers; x over +-40 standard units uniform, log-uniform in |x| from 1e-12, and dense near 0 / near x^2=V; InvCDF: p from 1e-300 to 1-1e-16 plus 0,1,outside; Rand: 50k seeded draws (DKW, alpha=1e-9); DeltaDist step. Non-trivial = hits a hostile class; distinct by hash of (op,parameters,points).")
 	r.Assume("reference Phi: 384-bit erfc (series/continued fraction) written for this harness; reference t CDF: finite trigonometric sums for integer V, gonum mathext RegIncBeta otherwise, adjudicated by Gauss-Legendre quadrature of the density; Go's math package is trusted")
-	r.Gate("t-tiny-x-large-V", "t-x2-just-below-V", "t-x2-just-above-V", "p<1e-200", "p>1-1e-12", "integer-V", "non-integer-V", "inv-0", "inv-1", "inv-outside", "delta-at-T", "close-pairs-probed", "pdf-integral-in-the-tail(mass<1e-9)")
+	r.Gate("t-tiny-x-large-V", "t-x2-just-below-V", "t-x2-just-above-V", "p<1e-200", "p>1-1e-12", "integer-V", "non-integer-V", "inv-0", "inv-1", "inv-outside", "delta-at-T", "close-pairs-probed", "pdf-integral-in-the-tail(mass<1e-9)", "rand-long-run-tails-and-kurtosis")
 
 	randNormal := func(rng *mon.Rand) (float64, float64) {
 		mu := rng.Uniform(-1e6, 1e6)
